@@ -17,7 +17,7 @@ ID = "C14"
 LEVEL = "exploration"
 ENGINE = "simio"
 TIERS = {
-    "quick": {"runs": 900, "budget_s": 70, "chunk": 6},
+    "quick": {"runs": 3000, "budget_s": 70, "chunk": 6},
     "thorough": {"runs": 40000, "budget_s": 1500, "chunk": 12},
 }
 RULE = ("one evaluation = one seeded attribute-nested object graph (children 1-3 levels deep, names "
@@ -98,7 +98,7 @@ def _attr_names(spec, depth=0, out=None):
 
 def gen(rng: Rng, tier, i):
     opts = {"kinds": rng.subset(LEAF_KINDS, 0.6, 3), "regime": "tiny", "maxdepth": 2, "nodes": 20}
-    g = _gen_tree(rng.fork("tree"), opts, 0, rng.pick([1, 2, 3]))
+    g = graphs.sanitize(_gen_tree(rng.fork("tree"), opts, 0, rng.pick([1, 2, 3])))
     names = _attr_names(g)
     present = sorted({n for n, _, _ in names})
     r = rng.fork("skip")
